@@ -36,7 +36,9 @@ RULE = (
     "TransformedParameter with its Jacobian in the joint; latent = affine TransformedParameter of the sampled "
     "variable with Jacobian, the CLI's shape; variational distribution writing through a TransformedParameter "
     "(exp / sigmoid / affine) setter), the joint's nesting (flat / joint+jacobian / prior+like), the form of q "
-    "(JointDistributionModel of Distributions / MultivariateNormal direct or inside a joint, mean-field or one "
+    "(JointDistributionModel of Distributions / MultivariateNormal direct or inside a joint; every normal and multivariate-normal "
+    "term - prior, likelihood, q - written either with the package's own class (MultivariateNormal, Normal(loc, precision), "
+    "LogNormal(mean, scale)) or with the generic Distribution wrapper around the torch class, mean-field or one "
     "full-rank normal over several parameters; plain or exp-transformed variational parameters; "
     "scale_tril / TrilExpDiagonal / covariance / precision), the objective (ELBO Monte-Carlo, analytic entropy, "
     "multi-sample; VR(alpha); CUBO(n); KLpq) with samples S, [S] or [S,K] (entropy=True also together with [S,K], at construction and through "
@@ -44,7 +46,8 @@ RULE = (
     "`samples=` override for the second request, how each hyper-parameter of the prior / likelihood is written (bare JSON "
     "number, list, or Parameter object; drawn per hyper-parameter) and the process default dtype (float64 as torchtree's main() sets it, or - library use - torch's float32 default "
     "with every Parameter carrying \"dtype\": \"torch.float64\"; restored after the case). Sub-check 'exact' sets q to the closed-form posterior, "
-    "'pairing' draws arbitrary q parameters; 'grid' enumerates objective x sample-shape form x family x route; 'dtype' enumerates family x route x objective "
+    "'pairing' draws arbitrary q parameters; 'grid' enumerates objective x sample-shape form x family x route; 'classes' enumerates package class / generic wrapper for prior x likelihood x q of the normal families x route x objective; "
+    "'dtype' enumerates family x route x objective "
     "x hyper-parameter form x default dtype with hyper-parameters that float32 cannot represent. "
     "Every case makes three evaluation requests separated by the change notification Optimizer issues. "
     "Non-trivial = more than one draw (S*K > 1) and more than one observed number; "
@@ -53,6 +56,8 @@ RULE = (
 ASSUMPTIONS = [
     "the variational distribution is always in a documented form (JointDistributionModel of Distributions, "
     "or MultivariateNormal); a bare factorised Distribution as q is outside documented use and not generated",
+    "the generic Distribution wrapper around torch's MultivariateNormal is used as q only as a factor of a "
+    "JointDistributionModel (a bare Distribution as q is outside documented use)",
     "ELBO(score=True) and KLpqImportance return gradient surrogates, not estimates of log Z; not asserted",
     "ELBO with entropy=True and a two-dimensional sample shape (at construction or through the samples= override) is "
     "generated; the documentation gives one estimator for [N,K] (the multi-sample ELBO) and no analytic-entropy "
@@ -81,6 +86,11 @@ TOL = 1e-9
 GAMMA = ("gexp", "gpois", "ggam")
 KINDS = ("gexp", "gpois", "ggam", "nn", "betabin", "mvn")
 FORMS = ("num", "list", "param")
+# a term may be written with the package's own class or with the generic Distribution wrapper around the torch class
+WRAP = ("package", "torch")
+TORCH_MVN = "torch.distributions.MultivariateNormal"
+OWN_NORMAL = "torchtree.distributions.Normal"  # loc, precision
+OWN_LOGNORMAL = "torchtree.distributions.log_normal.LogNormal"  # mean, scale
 ROUTES = {
     "gexp": ("direct", "prior_affine", "unres_affine", "setter"),
     "gpois": ("direct", "prior_affine", "unres_affine", "setter"),
@@ -136,8 +146,15 @@ def _tril_flat(L):
     return out
 
 
-def _mvn_q_spec(id_, x, p, par, var_ids):
-    """torchtree MultivariateNormal specification for q given loc / cov"""
+def _mvn_term(id_, x, params, wrap):
+    """a multivariate-normal term: torchtree's MultivariateNormal, or Distribution(torch MultivariateNormal)"""
+    if wrap == "torch":
+        return {"id": id_, "type": "Distribution", "distribution": TORCH_MVN, "x": x, "parameters": params}
+    return {"id": id_, "type": "MultivariateNormal", "x": x, "parameters": params}
+
+
+def _mvn_q_spec(id_, x, p, par, var_ids, wrap="package"):
+    """multivariate-normal specification for q given loc / cov"""
     loc, cov = _np(p["loc"]), _np(p["cov"])
     var_ids.append(id_ + ".loc")
     params = {"loc": tt.P(id_ + ".loc", loc.tolist())}
@@ -156,7 +173,7 @@ def _mvn_q_spec(id_, x, p, par, var_ids):
         var_ids.append(id_ + ".prec")
         prec = _np(p["prec"]) if "prec" in p else np.linalg.inv(cov)
         params["precision_matrix"] = tt.P(id_ + ".prec", (0.5 * (prec + prec.T)).tolist())
-    return {"id": id_, "type": "MultivariateNormal", "x": x, "parameters": params}
+    return _mvn_term(id_, x, params, wrap)
 
 
 class Blk:
@@ -169,6 +186,7 @@ class Blk:
         self.g = None  # latent z = g(sampled variable)
         self.sid = None  # id(s) of the variable q writes: str or list of str
         self.used_forms = set()
+        self.used_wraps = set()
         self.build()
 
     def hp(self, name, values):
@@ -183,6 +201,26 @@ class Blk:
             return tt.P(self.pre + "hp." + name.replace("#", ""), v)
         self.used_forms.add("list")
         return v
+
+    def wrap(self, role):
+        """package class or generic wrapper for this role; defaults keep older replay files meaningful"""
+        default = "package" if (self.b["kind"] == "mvn" and not (role == "like" and self.b.get("lik") == "diag")) else "torch"
+        w = self.b.get("w_" + role, default)
+        if self.b["kind"] in ("nn", "mvn"):
+            self.used_wraps.add("%s:%s:%s" % (self.b["kind"], role, w))
+        return w
+
+    def normal_term(self, id_, x, loc, scale, role, hp_names, lognormal=False, loc_is_ref=False):
+        """Normal / LogNormal term with torch's (loc, scale) or the package's (loc, precision) / (mean, scale)"""
+        w = self.wrap(role)
+        if lognormal:
+            if w == "package" and not loc_is_ref:
+                mean = np.exp(_np(loc) + 0.5 * _np(scale) ** 2)
+                return _dist(id_, OWN_LOGNORMAL, x, {"mean": self.hp(hp_names[0], mean), "scale": self.hp(hp_names[1], scale)})
+            return _dist(id_, DISTR["lognormal"], x, {"loc": loc if loc_is_ref else self.hp(hp_names[0], loc), "scale": self.hp(hp_names[1], scale)})
+        if w == "package":
+            return _dist(id_, OWN_NORMAL, x, {"loc": loc if loc_is_ref else self.hp(hp_names[0], loc), "precision": self.hp(hp_names[1], 1.0 / _np(scale) ** 2)})
+        return _dist(id_, DISTR["normal"], x, {"loc": loc if loc_is_ref else self.hp(hp_names[0], loc), "scale": self.hp(hp_names[1], scale)})
 
     def build(self):
         b, pre = self.b, self.pre
@@ -249,8 +287,8 @@ class Blk:
             m0, s0 = _np(b["m0"]), _np(b["s0"])
             if route == "prior_affine":
                 m0, s0 = loc + scale * m0, abs(scale) * s0
-            dn = DISTR["lognormal"] if route in ("prior_exp", "setter_exp") else DISTR["normal"]
-            self.priors.append(_dist(pre + "prior", dn, prior_x, {"loc": self.hp("prior.p0", m0), "scale": self.hp("prior.p1", s0)}))
+            self.priors.append(self.normal_term(pre + "prior", prior_x, m0, s0, "prior", ("prior.p0", "prior.p1"),
+                                                lognormal=route in ("prior_exp", "setter_exp")))
         elif k == "betabin":
             c1, c0 = _np(b["alpha"]), _np(b["beta"])
             if route == "prior_affine":
@@ -267,7 +305,7 @@ class Blk:
             else:
                 pp = {"scale_tril": tt.P(pre + "L0", np.linalg.cholesky(S0).tolist())}
             pp["loc"] = tt.P(pre + "m0", _np(b["m0"]).tolist())
-            self.priors.append({"id": pre + "prior", "type": "MultivariateNormal", "x": prior_x, "parameters": pp})
+            self.priors.append(_mvn_term(pre + "prior", prior_x, pp, self.wrap("prior")))
 
         # ---- likelihood: d == 1 -> one term over the n observations; d > 1 -> one term per observation
         rows = [X[:, 0].tolist()] if d == 1 else [X[i].tolist() for i in range(n)]
@@ -281,8 +319,8 @@ class Blk:
                 sh = self.hp("like.p#%d" % t, b["shape"])
                 self.likes.append(_dist(lid, DISTR["gamma"], did, {"concentration": sh, "rate": zid}))
             elif k == "nn":
-                dn = DISTR["lognormal"] if b.get("lik", "normal") == "lognormal" else DISTR["normal"]
-                self.likes.append(_dist(lid, dn, did, {"loc": zid, "scale": self.hp("like.p#%d" % t, b["sigma"])}))
+                self.likes.append(self.normal_term(lid, did, zid, b["sigma"], "like", (None, "like.p#%d" % t),
+                                                   lognormal=b.get("lik", "normal") == "lognormal", loc_is_ref=True))
             elif k == "betabin":
                 N = _np(b["N"])
                 tot = self.hp("like.p#%d" % t, N[:, 0] if d == 1 else N[t])
@@ -295,15 +333,13 @@ class Blk:
             for i in range(n):
                 lid = pre + "like%d" % i
                 if b.get("lik", "sym") == "diag":
-                    sd = self.hp("like.p#%d" % i, np.sqrt(np.diag(Sg)))
-                    self.likes.append(_dist(lid, DISTR["normal"], tt.P(pre + "data%d" % i, X[i].tolist()), {"loc": zid, "scale": sd}))
+                    self.likes.append(self.normal_term(lid, tt.P(pre + "data%d" % i, X[i].tolist()), zid, np.sqrt(np.diag(Sg)), "like",
+                                                       (None, "like.p#%d" % i), loc_is_ref=True))
                 else:
                     # N(x_i | mu, Sigma) = N(mu | x_i, Sigma): the sampled mean is the `x` of the term
                     cov = tt.P(pre + "Sigma", Sg.tolist()) if i == 0 else pre + "Sigma"
                     mx = prior_x if isinstance(prior_x, list) else zid
-                    self.likes.append(
-                        {"id": lid, "type": "MultivariateNormal", "x": mx, "parameters": {"loc": tt.P(pre + "data%d" % i, X[i].tolist()), "covariance_matrix": cov}}
-                    )
+                    self.likes.append(_mvn_term(lid, mx, {"loc": tt.P(pre + "data%d" % i, X[i].tolist()), "covariance_matrix": cov}, self.wrap("like")))
 
     # the distribution of the sampled variable that equals the exact posterior
     def posterior_u(self):
@@ -329,6 +365,7 @@ class Model:
         self.c = c
         self.blocks = [Blk(i, b) for i, b in enumerate(c["blocks"])]
         self.var_ids = []
+        self.q_wraps = set()
         self.groups = []  # (qkind, params, [block indices]) - log q is the sum over groups
         self.spec = self._spec()
 
@@ -396,17 +433,31 @@ class Model:
                 for i in idx:
                     s = self.blocks[i].sid
                     x += s if isinstance(s, list) else [s]
-                qd.append(_mvn_q_spec(qid, x[0] if len(x) == 1 else x, p, c.get("q_par", "scale_tril"), self.var_ids))
+                wq = c.get("w_q", "package") if c.get("full") else self.blocks[idx[0]].wrap("q")
+                self.q_wraps.add("mvn:q:" + wq)
+                qd.append(_mvn_q_spec(qid, x[0] if len(x) == 1 else x, p, c.get("q_par", "scale_tril"), self.var_ids, wq))
             else:
                 names = {"gamma": ("concentration", "rate", "conc", "rate"), "normal": ("loc", "scale", "loc", "scale"),
                          "lognormal": ("loc", "scale", "loc", "scale"), "beta": ("concentration1", "concentration0", "c1", "c0")}[qk]
                 ex = bool(c.get("q_exp"))
                 first_pos = qk in ("gamma", "beta")
+                blk = self.blocks[idx[0]]
+                if qk in ("normal", "lognormal") and blk.wrap("q") == "package":
+                    # the package's own classes: Normal(loc, precision), LogNormal(mean, scale)
+                    if qk == "normal":
+                        params = {"loc": _qparam(qid + ".loc", p["loc"], False, self.var_ids),
+                                  "precision": _qparam(qid + ".precision", 1.0 / _np(p["scale"]) ** 2, ex, self.var_ids)}
+                        qd.append(_dist(qid, OWN_NORMAL, blk.sid, params))
+                    else:
+                        params = {"mean": _qparam(qid + ".mean", np.exp(_np(p["loc"]) + 0.5 * _np(p["scale"]) ** 2), ex, self.var_ids),
+                                  "scale": _qparam(qid + ".scale", p["scale"], ex, self.var_ids)}
+                        qd.append(_dist(qid, OWN_LOGNORMAL, blk.sid, params))
+                    continue
                 params = {
                     names[0]: _qparam(qid + "." + names[0], p[names[2]], ex and first_pos, self.var_ids),
                     names[1]: _qparam(qid + "." + names[1], p[names[3]], ex, self.var_ids),
                 }
-                qd.append(_dist(qid, DISTR[qk], self.blocks[idx[0]].sid, params))
+                qd.append(_dist(qid, DISTR[qk], blk.sid, params))
         if c.get("q_form", "joint") == "direct" and len(qd) == 1 and qd[0]["type"] == "MultivariateNormal":
             qd[0]["id"] = "q"
             qspec = qd[0]
@@ -539,6 +590,7 @@ def _body(c):
                 "q:" + tags["q_form"], "joint:" + c.get("joint_style", "flat"), "override" if c.get("override") else "no-override",
                 "nblocks%d" % len(c["blocks"]), "default-float32" if c.get("f32") else "default-float64")
         + tuple(sorted({"hyper:" + f for blk in m.blocks for f in blk.used_forms}))
+        + tuple(sorted({"class:" + w for blk in m.blocks for w in blk.used_wraps} | {"class:" + w for w in m.q_wraps}))
         + tuple("fam:" + b["kind"] for b in c["blocks"])
         + tuple("route:" + b["route"] for b in c["blocks"]),
         tags=tags,
@@ -723,6 +775,10 @@ def block(draw, mode, kinds=KINDS, need_plain_normal=False):
         if route == "unres_affine":
             b["tloc"] = draw(fl(-3.0, 3.0))
             b["tscale"] = draw(logu(0.1, 10.0)) * draw(st.sampled_from([1.0, -1.0]))
+    if k in ("nn", "mvn"):
+        # each term with the package's own class or with the generic wrapper around the torch class
+        for role in ("prior", "like", "q"):
+            b["w_" + role] = draw(st.sampled_from(WRAP))
     # how each hyper-parameter is written: bare JSON number (scalars), list, or Parameter object
     b["forms"] = {name: draw(st.sampled_from(FORMS)) for name in ("prior.p0", "prior.p1", "like.p")}
     if mode == "perturbed":
@@ -787,7 +843,11 @@ def cases(mode):
                     b.pop("q", None)
                 c["full_q"] = {"loc": _vec(draw, fl(-5.0, 5.0), D), "tril": _tril(draw, D)}
         single_mvn = full or (nb == 1 and blocks[0]["kind"] == "mvn")
-        c["q_form"] = draw(st.sampled_from(["direct", "joint"])) if single_mvn else "joint"
+        if full:
+            c["w_q"] = draw(st.sampled_from(WRAP))
+        generic_q = (c.get("w_q") if full else blocks[0].get("w_q")) == "torch"
+        # the generic wrapper is a documented q only as a factor of a JointDistributionModel
+        c["q_form"] = draw(st.sampled_from(["direct", "joint"])) if single_mvn and not generic_q else "joint"
         if has_mvn:
             c["q_par"] = draw(st.sampled_from(["scale_tril", "scale_tril_unres", "covariance_matrix", "precision_matrix"]))
         c["q_exp"] = draw(st.booleans())
@@ -819,7 +879,7 @@ _OBJS = [
     {"type": "ELBO"}, {"type": "ELBO", "entropy": True}, {"type": "VR"}, {"type": "VR", "alpha": 0.5}, {"type": "VR", "alpha": 2.0},
     {"type": "CUBO"}, {"type": "CUBO", "n": 3.0}, {"type": "KLpq"},
 ]
-_SHAPES = [1, 4, [1], [5], [4, 3], [1, 3], [3, 1], [3, 3]]
+_SHAPES = [1, [5], [4, 3], [1, 3], [3, 1], [3, 3]]
 
 
 def grid(tier):
@@ -904,6 +964,48 @@ def dtype_grid(tier):
     return out
 
 
+# --------------------------------------------------------------------------- enumeration: package class x generic wrapper
+def class_grid(tier):
+    """normal and multivariate-normal families with every term (prior, likelihood, q) written with the package's
+    own class (MultivariateNormal; Normal(loc, precision); LogNormal(mean, scale)) or with Distribution(torch class)"""
+    out = []
+    i = 0
+    for k in ("nn", "mvn"):
+        for route in ROUTES[k]:
+            for lik in (("normal", "lognormal") if k == "nn" else ("sym", "diag")):
+                for o in _OBJS_DT:
+                    for wp in WRAP:
+                        for wl in WRAP:
+                            for wq in WRAP:
+                                i += 1
+                                mode = ("posterior", "perturbed")[i % 2]
+                                b = dict(_FIXED_NR[k], kind=k, route=route, lik=lik, w_prior=wp, w_like=wl, w_q=wq)
+                                if lik == "lognormal":
+                                    b["data"] = [[0.6], [0.9], [1.4], [2.2]]
+                                if lik == "sym":
+                                    b["Sigma"] = [[1.3, -0.2], [-0.2, 0.6]]
+                                if route in ("prior_affine", "unres_affine", "setter"):
+                                    b["tloc"], b["tscale"] = 0.4, -1.7
+                                if mode == "perturbed":
+                                    qk = {"nn": "lognormal" if route == "setter_exp" else "normal", "mvn": "mvn"}[k]
+                                    b["q"] = _FIXED_Q[qk]
+                                direct = k == "mvn" and wq == "package" and (i // 2) % 2 == 0
+                                one_d = not (isinstance(o["samples"], list) and len(o["samples"]) == 2)
+                                if o.get("entropy") and k == "mvn":
+                                    if wq == "torch" and one_d:
+                                        continue  # analytic entropy needs a direct MultivariateNormal (ASSUMPTIONS)
+                                    direct = wq == "package"
+                                c = {"mode": mode, "torch_seed": 9000 + i, "blocks": [b], "joint_style": ("flat", "jacobian", "prior_like")[i % 3],
+                                     "q_form": "direct" if direct else "joint", "q_exp": bool((i // 4) % 2), "q_inline": bool((i // 8) % 2),
+                                     "f32": bool((i // 16) % 2), "objective": dict(o)}
+                                if k == "mvn":
+                                    c["q_par"] = ("scale_tril", "scale_tril_unres", "covariance_matrix", "precision_matrix")[i % 4]
+                                if i % 4 == 0:
+                                    c["override"] = [2, 3]
+                                out.append(c)
+    return out
+
+
 # =========================================================================== oracle calibration
 def selftest():
     # literals of DESIGN.md (prototype runs) and closed forms against quadrature / Bayes' identity
@@ -939,4 +1041,5 @@ def subchecks(tier):
         Sub("pairing", body, strategy=cases("perturbed"), quick=1600, thorough=40000, pretags=pretags),
         Sub("grid", body, enumerate=grid, exhaustive=True, pretags=pretags),
         Sub("dtype", body, enumerate=dtype_grid, exhaustive=True, pretags=pretags),
+        Sub("classes", body, enumerate=class_grid, exhaustive=True, pretags=pretags),
     ]
